@@ -81,6 +81,11 @@ def _churned_model(lg, fac, spec, inst, churn, member_p):
     return m, byid
 
 def impl_generate(spec, inst, keep=False, churn=None, member_p=0.4):
+    from .common import log_turn, debug_logging
+    with debug_logging(log_turn()):
+        return _impl_generate(spec, inst, keep, churn, member_p)
+
+def _impl_generate(spec, inst, keep=False, churn=None, member_p=0.4):
     from maltoolbox.attackgraph import AttackGraph
     try:
         lg, fac = build_lang(spec)
